@@ -9,6 +9,7 @@ import (
 	"sort"
 	"strconv"
 	"strings"
+	"sync"
 	"time"
 	"unicode/utf8"
 
@@ -19,6 +20,35 @@ import (
 // These may persist between runs because a regular expression object
 // is essentially constant.
 var regCache map[string]*regexp.Regexp
+
+// regCacheLock protects regCache: the cache is shared by every evaluator in
+// the process, and they may be used from different goroutines.
+var regCacheLock sync.RWMutex
+
+// compileRegexp returns the compiled form of the given regular expression,
+// from our cache if it has been seen before.
+func compileRegexp(reg string) (*regexp.Regexp, error) {
+
+	regCacheLock.RLock()
+	r, ok := regCache[reg]
+	regCacheLock.RUnlock()
+	if ok {
+		return r, nil
+	}
+
+	// OK it wasn't found, so compile it.
+	r, err := regexp.Compile(reg)
+	if err != nil {
+		return nil, err
+	}
+
+	// store in the cache for next time
+	regCacheLock.Lock()
+	regCache[reg] = r
+	regCacheLock.Unlock()
+
+	return r, nil
+}
 
 // init ensures that our regexp cache is populated
 func init() {
@@ -252,22 +282,12 @@ func fnMatch(args []object.Object) object.Object {
 	str := args[0].Inspect()
 	reg := args[1].Inspect()
 
-	// Look for the compiled regular-expression object in our cache.
-	r, ok := regCache[reg]
-	if !ok {
-
-		// OK it wasn't found, so compile it.
-		var err error
-		r, err = regexp.Compile(reg)
-
-		// Ensure it compiled
-		if err != nil {
-			fmt.Printf("Invalid regular expression %s %s", reg, err.Error())
-			return &object.Boolean{Value: false}
-		}
-
-		// store in the cache for next time
-		regCache[reg] = r
+	// Look for the compiled regular-expression object in our cache,
+	// compiling it if it is not there yet.
+	r, err := compileRegexp(reg)
+	if err != nil {
+		fmt.Printf("Invalid regular expression %s %s", reg, err.Error())
+		return &object.Boolean{Value: false}
 	}
 
 	// Split the input by newline.
@@ -513,22 +533,12 @@ func fnReplace(args []object.Object) object.Object {
 	replace := args[2].Inspect()
 
 
-	// Look for the compiled regular-expression object in our cache.
-	r, ok := regCache[reg]
-	if !ok {
-
-		// OK it wasn't found, so compile it.
-		var err error
-		r, err = regexp.Compile(reg)
-
-		// Ensure it compiled
-		if err != nil {
-			fmt.Printf("Invalid regular expression %s %s", reg, err.Error())
-			return &object.Boolean{Value: false}
-		}
-
-		// store in the cache for next time
-		regCache[reg] = r
+	// Look for the compiled regular-expression object in our cache,
+	// compiling it if it is not there yet.
+	r, err := compileRegexp(reg)
+	if err != nil {
+		fmt.Printf("Invalid regular expression %s %s", reg, err.Error())
+		return &object.Boolean{Value: false}
 	}
 
 	out := r.ReplaceAll([]byte(str), []byte(replace))
